@@ -259,7 +259,7 @@ def run(check):
     n = check.pick(360, 4800)
     check.rule = ("programs with one tagged member (!wait-optional, !soft-optional, !soft-optional on a never-ending source, !oneof over two steps, !ordisabled, and all of "
                   "them in one object, !wait-optional inside an option of a !oneof, optional members whose source is a loop step) placed at top level / nested in a map / in a list / several per object, consumed by a step input, a workflow output or both; source "
-                  "outcomes drawn from {success, error, crash, deploy failure, disabled, alt, never enabled (condition on a value that is never produced), enabled late}; both completion orders forced by gates; oracles: reference presence/"
+                  "outcomes drawn from {success, error, crash, deploy failure, disabled, alt, never enabled (condition on a value that is never produced), enabled late}; both completion orders forced by gates; plus sources closed while being deployed (stop condition, caller's abort) with wait-optional members on their result / deployment failure / closure; oracles: reference presence/"
                   "absence and values (schedule-dependent presence of soft-optional is a set), wait-optional consumers start only after the source's terminal event, a "
                   "never-ending soft-optional source never delays the consumer, a present value was produced before the consumer started, one-of discriminator names "
                   "a produced alternative and carries its data; non-trivial/distinct = (tag kind, placement, consumer, source outcomes, order)")
@@ -277,11 +277,74 @@ def run(check):
             opts["logged_outputs"] = g["logged_outputs"]
         case, sem = runfam.build_case("c15-%05d" % i, g, **opts)
         items.append((case, sem, g))
+    # a source that is closed while it is still being deployed (its stop condition fires, or the caller aborts the run): it has
+    # finished - without result and without deployment failure - so wait-optional members on its result, its deployment
+    # failure and its closure are evaluated (the first two absent), in a workflow output and in a step input
+    closed_cases = []
+    for j in range(check.pick(24, 160)):
+        rng = random.Random(derive_seed(check.seed, "c15-closed", j))
+        cause = ["stop", "stop", "abort"][j % 3]
+        consumer = rng.choice(["output", "step"]) if cause == "stop" else "output"
+        job = gen.plugin_step("job", Expr(In("tag")))
+        steps = [job]
+        if cause == "stop":
+            job.fields["stop_if"] = Expr(Ref("S", "outputs", "success", "tag"))
+            steps.append(gen.plugin_step("S", Expr(In("tag"))))
+        members = {"r": Opt(Ref("job", "outputs", "success", "tag"), True), "d": Opt(Ref("job", "deploy_failed", "error"), True), "c": Opt(Ref("job", "closed", "result"), True)}
+        picked = {k: members[k] for k in rng.choice([("d",), ("r", "d"), ("r", "c"), ("r", "d", "c"), ("d", "c")])}
+        if consumer == "step":
+            steps.append(gen.plugin_step("C", Expr(In("tag")), extra_input={"a": picked}))
+            outs = {"report": {"c": gen.tagref("C")}}
+        else:
+            outs = {"report": dict(picked, tag=Expr(In("tag")))}
+        rng.shuffle(steps)
+        prog = Program(steps, outs, gen.BASE_INPUT)
+        scripts = gen.make_scripts(steps, {})
+        scripts["job"]["deploys"] = [{}, {"delay_ms": rng.choice([120, 200])}]
+        if cause == "stop":
+            scripts["S"]["exec"] = {"outcome": "success", "gate": "deploying"}
+            trig = [{"kind": "deploy-call", "src": "job", "nth": 2, "action": "open:deploying"}]
+        else:
+            trig = [{"kind": "deploy-call", "src": "job", "nth": 2, "action": "cancel:0"}]
+        closed_cases.append(({"id": "c15-x%04d" % j, "files": prog.files(), "scripts": scripts, "runs": [{"input": {"tag": "T1"}}], "triggers": trig}, cause, consumer, sorted(picked)))
     stats = {"kinds": {}, "present": 0, "absent": 0, "discriminators": {}}
     with harness.Runner() as rn:
         if not rn.hang_oracle_works():
             check.fail_broken("the hang oracle (Go runtime deadlock report) does not fire in this build")
         out = rn.run_cases([c for c, _s, _g in items], per_case_timeout=60)
+        xout = rn.run_cases([c for c, _a, _b, _m in closed_cases], per_case_timeout=60)
+    for case, cause, consumer, picked in closed_cases:
+        o = xout.get(case["id"], {})
+        check.count()
+        shape = "source closed during its deployment (%s), wait-optional %s in a %s" % (cause, "+".join(picked), consumer)
+        if "death" in o:
+            d = o["death"]
+            if d["kind"] == "deadlock":
+                check.report("tag@hang:closed-during-deployment", "run never returned (%s): %s" % (shape, d["key"]), {"case": case, "detail": d.get("detail", "")[:3000]})
+            else:
+                check.inconclusive_case(case["id"], "%s %s" % (d["kind"], d["key"]))
+            continue
+        res = o["result"]
+        ev = res.get("events") or []
+        run = (res.get("runs") or [{}])[0]
+        job_ran = any(e["kind"] == "exec-start" and e["src"] == "job" for e in ev)
+        if res.get("parse_err") or res.get("prepare_err") or job_ran:
+            check.inconclusive_case(case["id"], "construction did not take effect: %s" % (res.get("parse_err") or res.get("prepare_err") or "job was executed"))
+            continue
+        stats["kinds"]["closed-during-deployment:" + cause] = stats["kinds"].get("closed-during-deployment:" + cause, 0) + 1
+        if run.get("out_id") != "report":
+            check.report("tag@wait-optional-on-source-closed-during-deployment:%s->%s" % (cause, run.get("err_type") or run.get("out_id")),
+                         "%s: the source finished (closed) but the run did not return the output that only needs the members evaluated: %s" % (shape, (run.get("err") or str(run.get("out_id")))[:200]),
+                         {"case": case, "result": runfam.strip(res)})
+        else:
+            data = ref.denum(run.get("data")) or {}
+            if consumer == "step":
+                cin = [ref.denum((e.get("data") or {}).get("raw") or {}).get("a") for e in ev if e["kind"] == "exec-start" and e["src"] == "C"]
+                data = (cin or [{}])[0] or {}
+            wrong = [k for k in ("r", "d") if k in data]
+            if wrong:
+                check.report("tag@wait-optional-present-without-source", "%s: members %s are present although the job neither ran nor failed to deploy: %r" % (shape, wrong, data), {"case": case, "result": runfam.strip(res)})
+        check.nontrivial(shape)
     by_id = {c["id"]: (c, s, g) for c, s, g in items}
     for cid in sorted(out):
         o = out[cid]
